@@ -193,15 +193,19 @@ class Session:
                 self.ctx.fail('I10.shape', f'{what}: generator {t} returned shape {arr.shape} for {shape}')
 
     def match_some(self, what, got, gens, betas, R, log=False):
-        """Existential oracle: the values equal the reference for ONE complete generation."""
+        """Existential oracle: the values equal the reference for at least ONE complete generation; returns
+        all the generations that match (several can, by symmetry of antithetic draws)."""
         ctx = self.ctx
         best = None
+        matching = []
         for g in gens:
             want = self.mc_reference(g, betas, R, log=log)
             if len(want) == len(got) and all(ref.close(float(a), b, 1e-10, 1e-13) for a, b in zip(got, want)):
-                ctx.count('mc_values_checked')
-                return g
+                matching.append(g)
             best = want
+        if matching:
+            ctx.count('mc_values_checked')
+            return matching
         ctx.fail('I10.mean', f'{what}: {[float(x) for x in got][:4]} is not the mean over the {R} draws of the integrand with '
                              f'each draw variable replaced by its own recorded series, for any of the {len(gens)} '
                              f'generation(s) recorded (e.g. {best[:4] if best else None})')
@@ -227,15 +231,20 @@ class Session:
             gens = self.generations(calls, R)
             if len(calls) != len(self.cfg['vars']):
                 ctx.fail('I10.gen', f'one evaluation made {len(calls)} generator calls for {len(self.cfg["vars"])} draw variables')
-            g = self.match_some('Monte-Carlo value through get_value_c', list(got), gens, betas, R, log=log)
-            # the generator output is used unmodified: the table the engine was given holds the series
+            self.match_some('Monte-Carlo value through get_value_c', list(got), gens, betas, R, log=log)
+            # the generator output is used unmodified: every slice of the table handed to the engine is, bit for
+            # bit, the series one generator call of that variable's type returned (each call used once)
             td = np.asarray(self.db.theDraws)
             names_sorted = sorted(nm for nm, _ in self.cfg['vars'])
+            types = dict(self.cfg['vars'])
             if td.shape != (len(self.rows), R, len(names_sorted)):
                 ctx.fail('I10.table', f'draw table has shape {td.shape}, expected {(len(self.rows), R, len(names_sorted))}')
-            for j, nm in enumerate(names_sorted):
-                if not np.array_equal(td[:, :, j], g[nm]):
-                    ctx.fail('I10.table', f'draw table slice {j} is not the series generated for {nm}')
+            used = set()
+            for j in range(td.shape[2]):
+                hit = [ci for ci, c in enumerate(calls) if ci not in used and np.array_equal(td[:, :, j], c[2])]
+                if not hit:
+                    ctx.fail('I10.table', f'slice {j} of the draw table is not the unmodified output of any generator call')
+                used.add(hit[0])
             if len(self.cfg['vars']) >= 2:
                 ctx.probe('several draw variables in one formula')
             ctx.log(kind, R, k, [fhex(v) for v in list(got)[:3]])
@@ -338,23 +347,18 @@ class Session:
         self.calls.clear()
         if kind == 'LL':
             v = self.ll(rec, k)
-            ok = None
-            for g in rec['gens']:
-                want = sum(self.mc_reference(g, betas, rec['R'], log=True))
-                if ref.close(v, want, 1e-10, 1e-12):
-                    ok = g
-                    break
-            if ok is None:
+            ok = [g for g in rec['gens'] if ref.close(v, sum(self.mc_reference(g, betas, rec['R'], log=True)), 1e-10, 1e-12)]
+            if not ok:
                 ctx.fail('I10.mean', f'log likelihood {v!r} is not the sum of the logs of the Monte-Carlo means for any of the '
-                                     f'{len(rec["gens"])} generation(s) recorded at construction')
-            rec['gens'] = [ok]    # the object keeps using that generation
+                                     f'{len(rec["gens"])} generation(s) still consistent with this object')
+            rec['gens'] = ok    # the object keeps using one generation: later values must agree with the same one
             ctx.count('mc_values_checked')
             ctx.log(kind, fhex(v))
         else:
             sim = b.simulate({n: betas[n] for n in b.free_beta_names})
-            g = self.match_some('simulate (probability)', sim['p'].to_list(), rec['gens'], betas, rec['R'])
-            self.match_some('simulate (log)', sim['log_like'].to_list(), [g], betas, rec['R'], log=True)
-            rec['gens'] = [g]
+            gs = self.match_some('simulate (probability)', sim['p'].to_list(), rec['gens'], betas, rec['R'])
+            gs = self.match_some('simulate (log)', sim['log_like'].to_list(), gs, betas, rec['R'], log=True)
+            rec['gens'] = gs
             ctx.log(kind)
         if self.calls:
             ctx.fail('I10.gen', f'{kind} on a live object generated new draws ({len(self.calls)} generator calls)')
